@@ -252,4 +252,19 @@ PROPS.update({
         "level_text": "Lean 4 theorems over M-NET for every interleaving: when the run returns Ok at quiescence no task is half-way, every mailbox is empty, every arrival has been processed and every model is initialised; a half-way task with nothing queued always has an enabled transition (no spurious stall), and a blocked task is blocked on a channel operation; over M-TASK: a Runnable exists iff the state word says so (no lost wake-up); PARTIAL: schedule-independence of the invocation multiset and the executors' idle detection are checked by execution (ST vs MT vs model), not proved",
         "level_note": NET_NOTE + "; PARTIAL as stated in the assumptions",
     },
+    "C14": {
+        "props_module": "NexoVerif.Props.C14",
+        "model": "M-BCAST (NexoVerif/Model/Bcast.lean)",
+        "engines": [{"name": "bcast", "rule": "the real QueryBroadcaster<u64,u64> / BroadcastFuture / TaskSet with 0-6 scripted repliers (map, filter) through the verif hook: operation sequences over broadcast(arg, number of replies the caller reads) / poll / drop (cancellation) / reply available / wake of a stored sub-task waker (also spurious and stale wakers of a cancelled broadcast) / injected SendError / add connection; compared after every operation: poll result and reply list, number of polls of every sub-future, notifications of the caller's waker, mapped requests received by every replier; the real CachedRwLock<Vec<usize>> and real Output<u64> clones (connect_sink through one clone, send through another): all histories over clone/connect/send up to length 6 (quick) / 8 (thorough) for three clones, strided beyond 6000 per length, then random ones; monitors on the implementation trace: reply list = one reply per accepting replier in connection order, Ready only after all replied, Ready when all replied and woken, a wake after Pending notifies the caller, a send through any clone reaches every connection added before it; non-trivial = a broadcast with at least two accepting repliers completing after a Pending poll, or a read through a clone other than the first; distinct by hash"}],
+        "assumptions": [
+            "operations on the task set (wake of a sub-task, take_scheduled, discard) are atomic in M-BCAST: the lock-free Treiber stack inside TaskSet and the DiatomicWaker are not modelled at instruction granularity (the repository's loom tests cover that); wake-ups are injected between polls, not during a poll",
+            "CachedRwLock is modelled with a sequentially consistent epoch and an atomic write (the Mutex makes writes atomic; the Relaxed epoch load is outside the model)",
+            "repliers are scripted: what a replier computes from its request is the harness's choice; the model shows which reply ends up where",
+            "PARTIAL: termination of the broadcast once every accepting replier has replied and woken its sub-task is checked by a monitor on the implementation and by the differential runs, not proved (the arming/notification half of the argument is proved: pending_broadcast_is_woken_by_any_sub_task)",
+        ],
+        "trusted_base": ["M-BCAST is hand-written from ports/output/broadcaster.rs, util/task_set.rs, util/cached_rw_lock.rs; tied by the `bcast` engine (responses, per-sub-future poll counts, notifications)", "verif hook VQueryBroadcaster (scripted Sender implementation) and VCachedRwLock"],
+        "explanation": "theorems one_reply_per_accepting_replier_in_connection_order, replies_come_from_the_repliers, request_is_mapped_per_connection, pending_broadcast_is_woken_by_any_sub_task, every_reachable_state_is_well_formed, clones_share_one_connection_list, a_connection_is_never_forgotten",
+        "level_text": "Lean 4 invariant proof over the broadcaster state machine for every history of broadcasts, polls, cancellations, replies in any order, spurious and stale wake-ups and partially read reply iterators, any number of repliers: a Ready poll returns exactly one reply per accepting connection, in connection order, each consumed from its own replier during this broadcast (never stale), only after all have replied, and never finds an empty slot; a Pending poll leaves the caller registered so that the next sub-task wake-up notifies it once; the cached lock returns the shared connection list to every clone after any history; tied to the code by running the real QueryBroadcaster/TaskSet/CachedRwLock/Output clones and the model on identical operation sequences, comparing results, per-sub-future poll counts and notifications",
+        "level_note": "trusted: Lean kernel, propext/Classical.choice/Quot.sound, the differential harness, the scripted-sender hook; atomicity of task-set operations and SC epoch are modelling assumptions; PARTIAL: completion (liveness) is monitored, not proved",
+    },
 })
